@@ -326,4 +326,9 @@ def nestVal : Nat → PV
   | 0 => .null
   | n + 1 => .list (.cons (nestVal n) .nil)
 
+/-- `n` one-element lists around an EMPTY list: nesting `n + 1`, no scalar anywhere -/
+def nestEmpty : Nat → PV
+  | 0 => .list .nil
+  | n + 1 => .list (.cons (nestEmpty n) .nil)
+
 end Nervus.PropVal
